@@ -92,6 +92,8 @@ type Input struct {
 	Queues []int  `json:"queues,omitempty"`
 	Steps  []Step `json:"steps,omitempty"`
 	Hooks  []HookCfg `json:"hooks,omitempty"`
+	// a long backlog, described (long.go): expanded by Run and Render into T, Q, App, Queues, Steps
+	Long *Long `json:"long,omitempty"`
 }
 
 type Res struct {
@@ -221,6 +223,7 @@ func runOne(in Input, exported bool) Res {
 // or the session on the real operator (class "op").
 func Run(in Input) Observation {
 	os.Setenv("QUEUE_ACTIONS_METRICS", "no")
+	in = expand(in)
 	switch in.Kind {
 	case "set":
 		i, iq := runSet(in, false)
@@ -373,6 +376,14 @@ func wellFormed(in Input) (bool, string) {
 }
 
 func Render(in Input, obs *Observation, crash string) core.Case {
+	if in.Long != nil {
+		l := *in.Long
+		in = expand(in)
+		in.Long = nil
+		c := Render(in, obs, crash)
+		c.Tags = append(c.Tags, longTags(l)...)
+		return c
+	}
 	switch in.Kind {
 	case "set":
 		return renderSet(in, obs, crash)
@@ -677,12 +688,12 @@ func Gen(r *core.Rng, tier string) ([]core.In[Input], bool) {
 		corpus = append(corpus, core.In[Input]{Input: c, Stream: "corpus"})
 	}
 	g := &gen{r: r}
-	nRandom, nSet, nOp, nSync := 500, 600, 300, 260
+	nRandom, nSet, nOp, nSync, nLong := 500, 600, 300, 260, 10
 	switch tier {
 	case "thorough":
-		nRandom, nSet, nOp, nSync = 20000, 12000, 2000, 3000
+		nRandom, nSet, nOp, nSync, nLong = 20000, 12000, 2000, 3000, 600
 	case "search":
-		nRandom, nSet, nOp, nSync = 3000, 3000, 600, 800
+		nRandom, nSet, nOp, nSync, nLong = 3000, 3000, 600, 800, 60
 	}
 	for i := 0; i < nRandom; i++ {
 		if i%10 == 9 {
@@ -719,6 +730,28 @@ func Gen(r *core.Rng, tier string) ([]core.In[Input], bool) {
 		ins = mixed
 	}
 	ins = append(corpus, ins...) // the corpus runs first
+	// long backlogs (long.go): the fixed ones in ascending length, then random ones; their Coq terms are large
+	// (up to 1000 tasks), so they are spread evenly over the case files instead of filling the first one
+	var longs []core.In[Input]
+	for _, c := range LongCorpus(tier) {
+		longs = append(longs, core.In[Input]{Input: c, Stream: "long-corpus"})
+	}
+	for i := 0; i < nLong; i++ {
+		longs = append(longs, core.In[Input]{Input: g.longRandom(), Stream: "long-random"})
+	}
+	if len(longs) > 0 {
+		var mixed []core.In[Input]
+		per := len(ins)/len(longs) + 1
+		k := 0
+		for i, in := range ins {
+			if i%per == 0 && k < len(longs) {
+				mixed = append(mixed, longs[k])
+				k++
+			}
+			mixed = append(mixed, in)
+		}
+		ins = append(mixed, longs[k:]...)
+	}
 	if tier == "thorough" {
 		for _, in := range exhaustive(5) {
 			ins = append(ins, core.In[Input]{Input: in, Stream: "exhaustive"})
@@ -753,6 +786,10 @@ var Driver = core.Driver[Input, Observation]{
 			"failure policies (since seeded change C07-7; every class): each task carries the allowFailure of its binding - per layout all default (20%), independent per task (35%), the head of every queue strict and all other tasks lenient (17%), " +
 			"the other way round (17%), one policy per hook (11%); class op: the value is read from the loaded config of the hook's real schedule binding s-<queue> / l-<queue> (allowFailure: true); class sync: the kubernetes bindings declare allowFailure (40%), " +
 			"their real Synchronization tasks carry it, events / ticks carry the policy of one of the hook's bindings; a failed run of a head that allows failure after the merge is a Success (tag failed-run-forgiven); exhaustive: four policy patterns by layout number; " +
+			"long backlogs (since seeded change C07-9; streams long-corpus, long-random; classes queue, set and op): head + N tasks of its hook and type immediately behind it, N in 63,64,65,127,128,129,130,255,256,257,300,513,1000 (corpus, ascending) " +
+			"or random in 33..1100 (half within 8 of one of these sizes), patterns ungrouped / one group / alternating groups a b a b / runs of 1,3,5,... equal groups / random per task (0-2 contexts, 3 groups, monitor ids, failure policies), " +
+			"with or without [a task of hook 2, one more task of hook 1] behind the run, with 0-3 tasks arriving during the call; class set: a second queue with 3 tasks of the same hook; class op: the worker of main executes the head (real hook process, context file with all contexts; 30% first run fails and is retried), " +
+			"then the rest of the queue; such a layout is recorded by its description (class, n, pat, tail, app, fail, seed) and expanded deterministically by Run and Render; Coq evaluates the _lz forms of the predicates (equal to P / P_set / P_session: theorems C07_lz_is_*) and the count clauses P_count / P_set_count / P_session_count; " +
 			"non-trivial = well-formed (unique ids) with >=2 queued tasks (class op: and >=1 step); distinct = distinct input text"},
 	Gen: Gen, Run: Run, Render: Render, PerShard: 150, Workers: 8, CaseTimout: 20 * time.Second,
 	Extra: func() map[string]any {
